@@ -51,7 +51,17 @@ class Conc:
 
     def bytes_hex(self, tok):
         n = tok.name if isinstance(tok, Opaque) else repr(tok)
-        return n.encode().hex()
+        data = n.encode()
+        if self.m is not None and self.m is not True:
+            # the payload length is a symbolic quantity of the description when walrus looked at it
+            try:
+                ln = self.m.eval(z3.BitVec('len[%s]' % n, 64), False)
+                if z3.is_bv_value(ln):
+                    k = min(ln.as_long(), 4096)
+                    data = (data * (k // max(1, len(data)) + 1))[:k]
+            except z3.Z3Exception:
+                pass
+        return data.hex()
 
 
 def render_ref(v):
